@@ -9,6 +9,8 @@
   Quantifiers: every heap (finite, arbitrary sharing and cycles), every limits (the budget may or may not be hit),
   every list of frames, every list of watch / log / capture values (incl. values already in the frame).
 
+  Objects whose inspection raises are inside the domain: the guards of the code (C06) make every heap benign.
+
   Modelled assumption: distinct live objects have distinct `id()` and a recorded object stays alive while the cache is
   in use — the second half is what `hold()` establishes in the code (`c07_ids_stable`, re-checked on every run).
 -/
@@ -121,16 +123,15 @@ theorem c07_ref_entry (H : Heap) (a : ActionIn) (s : Snapshot) (h : collect H a 
 def Closed (s : Snapshot) : Prop :=
   (∀ r ∈ snapRefs s, r.2 ∈ s.table.map (·.vid)) ∧ (∀ w ∈ s.watches, w.hasResult = true → w.vid ≠ none)
 
-/-- **closed (partial)** — hypotheses named:
-    `Benign H` (no unguarded probe of the collector raises — otherwise a failing watch leaves ids without entries; the
-    recorded C06 finding), `NoRef H (localsOf a.frames)` and `hW` (no collected frame's locals dict is referenced by an
-    object or is the value of a watch — forced by the unwrap step, see `c07_locals_self_ref_witness`).  Then every
-    reference on a frame, every child reference and every watch / capture result that has an id resolves to an entry
-    of the snapshot's table. -/
-theorem c07_closed_partial (H : Heap) (a : ActionIn) (s : Snapshot) (hB : Benign H)
+/-- **closed (partial)** — hypothesis named: `NoRef H (localsOf a.frames)` and `hW`, i.e. no collected frame's locals
+    dict is referenced by an object or is the value of a watch (forced by the unwrap step, which deletes the entry of the
+    locals dict: see `c07_locals_self_ref_witness`).  Then every reference on a frame, every child reference and every
+    watch / log / capture result that has an id resolves to an entry of the snapshot's table — for every heap (objects whose
+    inspection raises included), budget hit or not. -/
+theorem c07_closed_partial (H : Heap) (a : ActionIn) (s : Snapshot)
     (hN : NoRef H (localsOf a.frames)) (hW : ∀ w ∈ a.watches, w.value ∉ localsOf a.frames)
     (h : collect H a = .ok s) : ∀ r ∈ snapRefs s, r.2 ∈ s.table.map (·.vid) := by
-  obtain ⟨h1, h2, h3⟩ := collect_closed hB hN hW h
+  obtain ⟨h1, h2, h3⟩ := collect_closed_all hN hW h
   intro r hr
   simp only [snapRefs, List.mem_append, List.mem_flatMap, List.mem_map, List.mem_filterMap] at hr
   rcases hr with (⟨vars, hv, x, hx, rfl⟩ | ⟨e, he, x, hx, rfl⟩) | ⟨w, hw, hwv⟩
@@ -143,42 +144,49 @@ theorem c07_closed_partial (H : Heap) (a : ActionIn) (s : Snapshot) (hB : Benign
       subst hwv
       exact h3 w hw v hv
 
-/-- **watch results have an id** (D10) — a watch or log-field result that is attached (not an error) carries an id:
-    when the budget is exhausted before the value is recorded the result is an error result instead. -/
+/-- **results have an id** (D10 and its sibling for captured values) — a watch, log-field or capture result that is
+    attached (not an error) carries an id: when the budget is exhausted before the value is recorded the result is an
+    error result instead. -/
 theorem c07_watch_has_id (H : Heap) (L : Limits) (ws : List WatchIn) (c : Cache) (t : List Entry) :
-    ∀ w ∈ (collectWatches H L ws c t).outs, w.source ≠ .capture → w.hasResult = true → w.vid ≠ none := by
+    ∀ w ∈ (collectWatches H L ws c t).outs, w.hasResult = true → w.vid ≠ none := by
   induction ws generalizing c t with
   | nil => simp [collectWatches]
   | cons w ws ih =>
+    have tail : ∀ (o : WatchOut) (r : WatchesOut), (o.hasResult = true → o.vid ≠ none) →
+        (∀ x ∈ r.outs, x.hasResult = true → x.vid ≠ none) →
+        ∀ x ∈ ({ r with outs := o :: r.outs } : WatchesOut).outs, x.hasResult = true → x.vid ≠ none := by
+      intro o r ho hr x hx
+      simp only [List.mem_cons] at hx
+      rcases hx with rfl | hx
+      · exact ho
+      · exact hr x hx
     simp only [collectWatches]
     split
-    · rename_i hsrc
-      split
-      · simp
-      · intro x hx
-        simp only [List.mem_cons] at hx
-        rcases hx with rfl | hx
-        · intro hne; exact absurd hsrc hne
-        · exact ih _ _ x hx
     · split
-      · intro x hx
-        simp only [List.mem_cons] at hx
-        rcases hx with rfl | hx
-        · simp
-        · exact ih _ _ x hx
+      · simp
       · split
-        · intro x hx
-          simp only [List.mem_cons] at hx
-          rcases hx with rfl | hx
-          · simp
-          · exact ih _ _ x hx
+        · exact tail _ _ (by simp) (ih _ _)
         · rename_i hnm
-          intro x hx
-          simp only [List.mem_cons] at hx
-          rcases hx with rfl | hx
-          · intro _ _ hv
-            exact hnm "variable limit reached" hv rfl
-          · exact ih _ _ x hx
+          exact tail _ _ (fun _ hv => hnm "variable limit reached" hv rfl) (ih _ _)
+    · split
+      · exact tail _ _ (by simp) (ih _ _)
+      · split
+        · exact tail _ _ (by simp) (ih _ _)
+        · rename_i hnm
+          exact tail _ _ (fun _ hv => hnm "variable limit reached" hv rfl) (ih _ _)
+
+/-- on a finished snapshot -/
+theorem c07_results_have_id (H : Heap) (a : ActionIn) (s : Snapshot) (h : collect H a = .ok s) :
+    ∀ w ∈ s.watches, w.hasResult = true → w.vid ≠ none := by
+  unfold collect collectFrom at h
+  simp only at h
+  split at h
+  · simp at h
+  · split at h
+    · simp at h
+    · simp only [Outcome.ok.injEq] at h
+      subst h
+      exact c07_watch_has_id _ _ _ _ _
 
 /-- **the locals dict that contains itself** (D31, known finding `C07/locals-dict-self-reference`): `x = 1; l = locals()`.
     The frame lists `l` under id 1 — the id of the locals pseudo-entry, which the unwrap step has deleted. -/
@@ -191,17 +199,15 @@ theorem c07_locals_self_ref_witness :
   intro h
   exact h 0 0 (by decide) (by decide)
 
-/-- **a capture result without id** (finding candidate `C07/capture-result-without-id`): `process_capture_variable`
-    has no guard for an exhausted budget (`captureLimitGuard = false`), so the captured return value of a frame that
-    used up the budget is attached with no id at all. -/
-theorem c07_capture_unguarded_witness :
-    captureLimitGuard = false ∧
+/-- the captured return value of a frame that used up the budget becomes an error result (was: a result with no id) -/
+theorem c07_capture_guarded :
+    captureLimitError = some "variable limit reached" ∧
     (match collect Ex.nested ⟨⟨2, 1024, 10, 5⟩, Ex.frame0, [⟨.capture, "return", 6⟩]⟩ with
-      | .ok s => s.watches.map (fun w => (w.hasResult, w.vid))
-      | .failed _ => []) = [(true, none)] := by
+      | .ok s => s.watches.map (fun w => (w.hasResult, w.vid, w.error))
+      | .failed _ => []) = [(false, none, some "variable limit reached")] := by
   exact ⟨by decide, by decide⟩
 
-/-- the full-strength statement does not hold of the code as it is: both witnesses refute it -/
+/-- the full-strength statement does not hold of the code as it is: the locals self reference refutes it -/
 theorem c07_closed_refuted : ¬ (∀ (H : Heap) (a : ActionIn) (s : Snapshot), collect H a = .ok s → Closed s) := by
   intro hall
   have key : (match collect Ex.localsSelf ⟨⟨40, 1024, 10, 5⟩, Ex.frame0, []⟩ with
@@ -251,7 +257,7 @@ example : (match collect Ex.selfList ⟨⟨40, 1024, 10, 5⟩, Ex.frame0, [⟨.w
     | .failed _ => ([], [], [])) =
     ([(2, [2]), (3, [])], [some 2, some 3], [(1, 2), (2, 3), (1, 2), (1, 2), (2, 3)]) := by decide
 
-example : Benign Ex.selfList := benign_of_check _ (by decide)
+example : Benign Ex.selfList := benign_all _
 example : NoRef Ex.selfList (localsOf Ex.frame0) := by
   intro (i : Nat) x hx
   have : i = 0 ∨ i = 1 ∨ i = 2 ∨ 3 ≤ i := by omega
